@@ -237,7 +237,8 @@ struct C08 : Scenario {
                 o.checks++;
                 for (size_t i = 0; i < rl; i++) {
                     float expect = a[k * rl + i] * share, got = b[(k * nb + bb) * rl + i];
-                    bool ok = pow2 ? expect == got : std::fabs(got - expect) <= 1e-5 * std::fabs(expect) + 1e-20;
+                    // scaling by a power of two is exact except in the subnormal range (far tails below 1.2e-38)
+                    bool ok = pow2 ? (expect == got || (std::fabs(expect) < 2e-38f && std::fabs(got - expect) <= 1e-42f)) : std::fabs(got - expect) <= 1e-5 * std::fabs(expect) + 1e-20;
                     if (!ok && !(std::isnan(expect) && std::isnan(got))) { o.fail("C08.identical_bunches", "filling " + patdesc + ": " + nme + " record " + std::to_string(k) + " bunch " + std::to_string(bb) + " element " + std::to_string(i) + " = " + fmt_g(got, 9) + " but share x single-bunch value = " + fmt_g(expect, 9)); break; }
                 }
                 if (o.has("C08.identical_bunches")) break;
